@@ -58,6 +58,14 @@ CLAIMED = {
                      "transfers from 11 kinds of tampered state (missing/short data file, foreign identity fields, damaged metadata, damaged highest chunk incl. all-complete) with tree comparison.",
                 note=BASE_TB + "Modelled not verified: CRC32C detection of the injected damage is executed exhaustively per generated sidecar, not proved; bytes.Reader short-read behaviour is covered by the "
                      "accept/reject differential; no power-loss model (the code has no fsync). The behavioural clause rests on the end-to-end runs (sampled configurations), the metadata clauses on theorems."),
+    "C05": dict(category="proof", design="DESIGN.md §4 C05",
+                technique="Lean 4 inductive invariant over all interleavings of writers, flusher, kill and restart; regenerated SSA dominance facts; crash-point enumeration of the real receiver in a child process",
+                text="sidecar_on_disk_sound: in every reachable state of the writers || flusher || crash || restart system, the on-disk sidecar marks only good chunks; the sidecar file changes only "
+                     "by the rename of a completely written temp file. The model's ordering assumptions are regenerated facts (positional write dominates every call from which Sidecar.MarkComplete* is "
+                     "reachable; CRC check dominates the write; temp write dominates rename). Tie (b): the real transfer runs in a child process that SIGKILLs itself at the k-th hit of each of six hook "
+                     "points, with and without the flusher firing at that instant; every sidecar LoadSidecar accepts afterwards is compared chunk by chunk with the source.",
+                note=BASE_TB + "Modelled not verified: process-kill semantics (completed syscalls persist; no power loss, the code has no fsync); the 1 s flusher is represented by FlushAllFlushers() at hook "
+                     "points; atomicity of rename(2); writers write CRC-verified source bytes."),
 }
 PENDING_REASON = "check not built yet in this round (design in DESIGN.md §4); not claimed until its theorem and tie exist"
 NOT_APPLICABLE = {}
